@@ -138,7 +138,9 @@ def coq_build(prop_id, timeout=900):
                 s = line.strip()
                 if not s or s.startswith('Closed under') or s == 'Axioms:':
                     continue
-                m = re.match(r'([A-Za-z_][A-Za-z_0-9\.\']*)\s*:', s)
+                if line[:1] in (' ', '\t'):
+                    continue          # continuation of an axiom's type
+                m = re.match(r'([A-Za-z_][A-Za-z_0-9\.\']*)\s*(?::|$)', s)
                 if m:
                     res['assumptions'][cur].append(m.group(1))
         return res
@@ -190,7 +192,7 @@ def build_model_driver(timeout=600):
         if rc != 0:
             return False, 'extraction failed:\n' + out[-2000:]
         sh('cp ../util.ml ../driver.ml .', cwd=gen)
-        rc, out, _ = sh('ocamlfind ocamlopt -O2 -w -a -package str -linkpkg model.mli model.ml util.ml driver.ml -o %s' % exe,
+        rc, out, _ = sh('ocamlfind ocamlopt -O2 -w -a -package str,zarith -linkpkg model.mli model.ml util.ml driver.ml -o %s' % exe,
                         cwd=gen, timeout=300)
         if rc != 0:
             return False, 'ocaml build failed:\n' + out[-2000:]
@@ -291,7 +293,11 @@ def compare_lines(impl_text, model_text, tol=None, context_tags=()):
             break
         ta, tb = ra.split(), rb.split()
         rt, at = tol.get(tag, (0.0, 0.0))
-        ok = len(ta) == len(tb) and all(tok_equal(x, y, rt, at) for x, y in zip(ta, tb))
+        if tb[:1] == ['CHECK']:
+            # the model evaluated the case in exact arithmetic and returns a verdict
+            ok = tb[1:2] == ['ok']
+        else:
+            ok = len(ta) == len(tb) and all(tok_equal(x, y, rt, at) for x, y in zip(ta, tb))
         if not ok:
             if len(dis) < 25:
                 dis.append({'kind': 'value', 'query': qa[:300], 'impl': ra[:600], 'model': rb[:600], 'context': dict(ctx)})
